@@ -145,3 +145,11 @@ Theorem C12_on_plain_programs_at_most_attempts_invocations :
     forall i, starts i (st_trace st) <= Z.to_nat (pol_attempts (nspec_of P i)).
 Proof. exact plain_bodies_are_invoked_at_most_attempts_times. Qed.
 Print Assumptions C12_on_plain_programs_at_most_attempts_invocations.
+
+(* (10) kind G: whatever the program and the schedule, get_default is called -- after exhausted attempts, after a non-retryable
+        exception, or forced by an exhausted recurrent subgraph -- only for a node declared with use_default=True *)
+From MLPE Require Import Proofs.DefaultAll.
+Theorem C12_get_default_only_for_nodes_with_a_default :
+  forall P st, reachable P st -> forall i kw, In (ODefault i kw) (st_trace st) -> ns_default (nspec_of P i) = true.
+Proof. exact get_default_only_for_nodes_with_a_default_all_programs. Qed.
+Print Assumptions C12_get_default_only_for_nodes_with_a_default.
